@@ -226,6 +226,45 @@ def changeTimes (cfg : Config α) : Nat → List (Peak α) → Tape α → Optio
     | none => none
     | some (peaks1, t1) => changeTimes cfg k peaks1 t1
 
+
+/-! ### counted evaluation (`__call__(individual, count=True)`, `:209-244`) -/
+
+structure State (α : Type) where
+  peaks : List (Peak α)
+  nevals : Nat
+
+/-- `self.period > 0 and self.nevals % self.period == 0` (`:241`), `nevals` already incremented -/
+def triggers (period : Int) (nevals : Nat) : Bool := decide (0 < period ∧ (nevals : Int) % period = 0)
+
+/-- One counted evaluation: the fitness is `max(possible_values)` of the *current* peaks, `nevals` is
+incremented, and `changePeaks` runs afterwards exactly when `triggers`.  The offline-error bookkeeping
+(`:234-238`) only reads the state, except that `globalMaximum()` takes `max` over the peaks and so
+raises when there is no peak at all (→ `none`).  Returns (fitness, change triggered?, new state, tape). -/
+def evalCounted (cfg : Config α) (period : Int) (basis : Option (List α → α)) (st : State α) (x : List α)
+    (t : Tape α) : Option (α × Bool × State α × Tape α) :=
+  match call st.peaks (basis.map fun b => b x) x with
+  | none => none
+  | some v =>
+    if st.peaks.isEmpty then none else
+    let n := st.nevals + 1
+    if triggers period n then
+      match changePeaks cfg st.peaks t with
+      | none => none
+      | some (p', t') => some (v, true, ⟨p', n⟩, t')
+    else some (v, false, ⟨st.peaks, n⟩, t)
+
+/-- a history of counted evaluations -/
+def evalMany (cfg : Config α) (period : Int) (basis : Option (List α → α)) :
+    List (List α) → State α → Tape α → Option (List (α × Bool) × State α × Tape α)
+  | [], st, t => some ([], st, t)
+  | x :: xs, st, t =>
+    match evalCounted cfg period basis st x t with
+    | none => none
+    | some (v, ch, st1, t1) =>
+      match evalMany cfg period basis xs st1 t1 with
+      | none => none
+      | some (outs, st2, t2) => some ((v, ch) :: outs, st2, t2)
+
 /-- Python `int(round(x))` on a double: round half to even. -/
 def pyRoundFloat (x : Float) : Int :=
   let f := x.floor
